@@ -51,6 +51,7 @@ type vfCleanObs struct {
 	after2        vfDirObs
 	ops2          []sched.Op
 	out2          string
+	before2       vfDirObs
 	sibBefore     vfDirObs
 	sibAfter      vfDirObs
 }
@@ -125,6 +126,7 @@ func vfRunClean(c *vfCtx, sc vfCleanScenario) *vfCleanObs {
 	o.summary = vfParseSummary(o.out)
 	if sc.Clean2 {
 		vfPlantSentinel(dir)
+		o.before2 = vfSnapDir(dir)
 		o.ops2 = vfLogged(func() { o.out2 = vfClean(sc.Run, cnt, sc.Sort) })
 		o.after2 = vfSnapDir(dir)
 	}
